@@ -22,6 +22,10 @@ tie:   exact correspondence (ctx.coq_bool_cases, model at BigQ): radial grids wi
 search: every observation is judged by the property's own product formula (numpy float oracle / exact Fractions), the
        preset grids by "every shell has at least the tabulated number of points in the requested method's table";
        unbuildable presets are reported with the concrete call.
+histories: on every constructed grid .points is read, the returned array is edited in place by the caller and everything is
+       read again (the second read is what goes to Coq and to the oracles); returned shell grids are edited in place and
+       requested again; the float64 array passed as centre is updated in place and the grid must stay centre + r_i*(p.M_i)
+       for the centre it then reports.
 broken tie: when the extraction fails closed, the model does not build or a proof about the generated definitions
        breaks, all implementation-side oracles still run and the first failing input that is not a listed known
        finding becomes the replay (Ctx.broken_tie).
@@ -642,12 +646,14 @@ def requested_degrees(tabs, meth, n, spec):
     return list(vals)
 
 
-def build_call(spec_d):
-    """spec_d: dict describing one call; returns (status, grid)."""
+def build_call(spec_d, keep=None):
+    """spec_d: dict describing one call; returns (status, grid).  `keep` receives the centre object handed to the call."""
     from grid.atomgrid import AtomGrid
 
     rg = make_rgrid(spec_d["r"], spec_d["w"], spec_d.get("rdtype", "float64"), spec_d.get("wdtype", "float64"), spec_d.get("layout", "c"))
     kw = {"center": make_center(spec_d), "rotate": spec_d["rotate"], "method": spec_d["method"]}
+    if keep is not None:
+        keep["center"] = kw["center"]
     if spec_d["via"] == "init":
         kind, vals = spec_d["spec"]
         if kind == "sizes":
@@ -693,6 +699,39 @@ def pruned_request(tabs, d):
     return [ds[sum(1 for b in bounds if Fraction(r) > b)] for r in d["r"]]
 
 
+def read_after_caller_edit(g):
+    """History on ONE grid object: read .points, let the caller edit the array it was handed IN PLACE, read everything
+    again.  Returns (values of the first read, observation of the second read, problem or None): the property speaks
+    about the grid's points, not about the first array the caller happened to receive."""
+    first = g.points
+    keep = np.array(first, dtype=float, copy=True)
+    try:
+        first *= -3.0
+        first += 1.0
+    except ValueError:      # a read-only array was handed out: the caller cannot edit it
+        pass
+    obs = grid_obs(g)
+    prob = None
+    if obs["pts"].shape != keep.shape or not np.array_equal(obs["pts"], keep):
+        prob = ("reread", "a second read of .points, after the caller edited the array returned by the first read in place, "
+                          "differs from the first read (the grid handed out its own state)")
+    return keep, obs, prob
+
+
+def centre_inplace_check(sph, tabs, g, d, req, cobj, shift):
+    """History: the float64 array the caller passed as `center` is updated in place after construction.  Whatever centre the
+    grid then reports, its points must be that centre + r_i*(p.M_i) and its weights unchanged.  None or (what, text)."""
+    if not (isinstance(cobj, np.ndarray) and cobj.dtype == np.float64 and cobj.flags.writeable):
+        return None
+    cobj += np.array(shift)
+    cnow = np.array(g.center, dtype=float)
+    obs = grid_obs(g)
+    v = judge_grid(sph, tabs, d["method"], d["r"], d["w"], req, cnow, d["rotate"], obs)
+    if v is None:
+        return None
+    return ("centre_inplace", f"after the caller updated its centre array in place by {shift} the grid reports centre {cnow.tolist()} but: {v[1]}")
+
+
 def judge_shells(sph, g, d, obs):
     """get_shell_grid(i, r_sq) for every shell against the grid's own slices; returns (bad or None, observations)."""
     n, meth, rotate = len(d["r"]), d["method"], d["rotate"]
@@ -714,6 +753,18 @@ def judge_shells(sph, g, d, obs):
                 bad_shell = bad_shell or (i, r_sq, "weights differ from " + ("the shell's weights" if r_sq else "w_a*w_i"))
             if finite(sp, sw):
                 seen.append((i, r_sq, sp, sw))
+            # the caller edits the arrays of the shell grid it received in place and asks for the shell again
+            try:
+                pa, wa_ = sg.points, sg.weights
+                pa += 5.0
+                wa_ *= 2.0
+            except ValueError:
+                pass
+            st3, sg2 = observe(lambda: g.get_shell_grid(i, r_sq=r_sq))
+            if st3 == "exc" or not (np.array_equal(np.array(sg2.points, dtype=float), sp) and np.array_equal(np.array(sg2.weights, dtype=float), sw)):
+                bad_shell = bad_shell or (i, r_sq, "asking for the shell a second time, after the caller edited the first result in place, gives a different shell grid")
+    if not (np.array_equal(np.array(g.points, dtype=float), obs["pts"]) and np.array_equal(np.array(g.weights, dtype=float), obs["wts"])):
+        bad_shell = bad_shell or (0, True, "editing the arrays of a returned shell grid in place changed the atomic grid's own points/weights")
     for bad_i in (-1, n):
         st2, sg = observe(lambda: g.get_shell_grid(bad_i))
         if st2 != "exc" or not sg.startswith("ValueError"):
@@ -725,7 +776,8 @@ def judge_call(sph, tabs, d):
     """All of the property's checks on one small call; list of (what, text).  Used by the replay."""
     n, meth, rotate = len(d["r"]), d["method"], d["rotate"]
     center = [0.0, 0.0, 0.0] if d["center"] is None else d["center"]
-    st, g = build_call(d)
+    keep = {}
+    st, g = build_call(d, keep)
     rg_ok = n > 0 and all(x >= 0 for x in d["r"])
     rot_ok = isinstance(rotate, int) and 0 <= rotate < 2 ** 32 - n
     req = requested_degrees(tabs, meth, n, tuple(d["spec"])) if d["via"] == "init" else pruned_request(tabs, d)
@@ -736,14 +788,17 @@ def judge_call(sph, tabs, d):
         return [] if g.startswith(("ValueError", "TypeError")) else [("raises", f"raised {g} instead of ValueError/TypeError")]
     if not must_build:
         return [("accepted", "invalid arguments were accepted")]
-    obs = grid_obs(g)
-    out = []
+    _, obs, prob = read_after_caller_edit(g)
+    out = [prob] if prob else []
     v = judge_grid(sph, tabs, meth, d["r"], d["w"], req, np.array(center), rotate, obs)
     if v is not None:
-        return [v]
+        return out + [v]
     bs, _ = judge_shells(sph, g, d, obs)
     if bs is not None:
         out.append(("shell_grid", f"get_shell_grid({bs[0]}, r_sq={bs[1]}): {bs[2]}"))
+    ci = centre_inplace_check(sph, tabs, g, d, req, keep.get("center"), d.get("centre_shift", [0.5, -1.25, 2.0]))
+    if ci is not None:
+        out.append(ci)
     return out
 
 
@@ -895,7 +950,8 @@ def _run(ctx: Ctx):
         n = len(d["r"])
         meth, rotate = d["method"], d["rotate"]
         center = [0.0, 0.0, 0.0] if d["center"] is None else d["center"]
-        st, g = build_call(d)
+        keep = {}
+        st, g = build_call(d, keep)
         key = call_text(d)
         ctx.case(("call", key))
         ctx.count(f"{d['via']}:{meth}:{'rot' if rotate else 'norot'}:{d['spec'][0]}")
@@ -930,7 +986,12 @@ def _run(ctx: Ctx):
             report(n, "corr_constructor", key, "accepted", f"{key} was accepted although the arguments are invalid", {"call": d})
             case(f"negb (is_none g{ci})", {"kind": "accepts", "call": d, "key": key})
             continue
-        obs = grid_obs(g)
+        # history on this one object: first read, caller edits the returned array in place, everything is read again;
+        # the values compared with the model and judged by the product formula are those of the SECOND read
+        _, obs, prob = read_after_caller_edit(g)
+        if prob is not None:
+            report(n, "shell_points_weights", key + "  [read .points, edit the returned array in place, read again]", prob[0], f"{key}: {prob[1]}",
+                   {"call": d, "history": "reread"})
         for dg in set(obs["degs"]):
             sph.need(meth, dg)
         if not finite(obs["pts"], obs["pts0"], obs["wts"]):
@@ -976,6 +1037,12 @@ def _run(ctx: Ctx):
                 report(n, "rotation_keeps_radii", key + f" shell {i}", float(np.max(np.abs(rad[a:b] - d["r"][i]))),
                        f"{key}: points of shell {i} are not at distance r_i = {d['r'][i]} from the centre", {"call": d, "shell": i})
                 break
+        # history: the caller updates the float64 array it passed as centre in place
+        cshift = [rng.randint(-6, 6) / 4.0 for _ in range(3)]
+        civ = centre_inplace_check(sph, tabs, g, d, req, keep.get("center"), cshift)
+        if civ is not None:
+            report(n, "translate", key + f"  [then the centre array is updated in place by {cshift}]", civ[0], f"{key}: {civ[1]}",
+                   {"call": dict(d, centre_shift=cshift), "history": "centre_inplace"})
         if ci < 4:
             ctx.sample({"call": key, "degrees": obs["degs"], "indices": obs["idx"], "first_point": obs["pts"][0].tolist(), "first_weight": float(obs["wts"][0])})
     ctx.cov["small_calls"] = len(calls)
@@ -1115,7 +1182,9 @@ def _run(ctx: Ctx):
                 for ob in ("presets_bad_rows_listed", "presets_build_partial"):
                     report(n, ob, key, g.split(":")[0], f"{key} raised {g}: a tabulated element cannot be built", rp)
             continue
-        obs = grid_obs(g)
+        _, obs, prob = read_after_caller_edit(g)
+        if prob is not None:
+            report(len(rpts), "shell_points_weights", key + "  [read .points, edit the returned array in place, read again]", prob[0], f"{key}: {prob[1]}", rp)
         case(f"opt_pair_eqb (light_preset dtab ntab QOps impl_cfg preset_tables {CTOR[meth]} {z(a)} {coq_str(p)} {ql(rpts)}) "
              f"(Some ({zl(obs['degs'])}, {zl(obs['idx'])}))", {"kind": "preset", "key": key, "pair": (p, a)})
         bad = judge_preset(sph, tabs, presets[p]["rows"][a], meth, rpts, rw, cen, rotate, obs)
@@ -1360,7 +1429,8 @@ def replay(rp):
             return 1
         tabs, _ = extract_tables()
         rpts = [float(x) for x in v.rgrid.points]
-        bad = judge_preset(Spheres(None, tabs), tabs, row, rp["method"], rpts, [float(x) for x in v.rgrid.weights], cen, rp["rotate"], grid_obs(v))
+        _, obs2, prob = read_after_caller_edit(v)
+        bad = prob or judge_preset(Spheres(None, tabs), tabs, row, rp["method"], rpts, [float(x) for x in v.rgrid.weights], cen, rp["rotate"], obs2)
         print(f"built {len(v.degrees)} shells, degrees {list(map(int, v.degrees))[:16]}...")
         print("FAILS: " + bad[0] + " - " + bad[1] if bad else "the grid satisfies the property on this source tree")
         return 1 if bad else 0
